@@ -34,7 +34,7 @@ func init() {
 		Variant{Prop: "C08", Name: "delete-error-swallowed", File: sd, Expect: "C08.c",
 			Old: "\tif deleteErr != nil {\n\t\treturn fmt.Errorf(\n\t\t\t\"header/store: delete range [%d:%d) (actual: %d): %w\",\n\t\t\tfrom,\n\t\t\tto,\n\t\t\tactualTo,\n\t\t\tdeleteErr,\n\t\t)\n\t}\n\n\treturn nil\n}", New: "\tif deleteErr != nil {\n\t\tlog.Errorw(\"delete range\", \"from\", from, \"to\", to, \"actual\", actualTo, \"err\", deleteErr)\n\t}\n\n\treturn nil\n}"},
 		Variant{Prop: "C08", Name: "sequential-skips-last", File: sd, Expect: "C08.c",
-			Old: "\tfor height := from; height < to; height++ {\n\t\terr := s.deleteSingle(ctx, height, onDelete)", New: "\tfor height := from; height+1 < to; height++ {\n\t\terr := s.deleteSingle(ctx, height, onDelete)"},
+			Old: "\tfor height := from; height < to; height++ {\n\t\tif h := s.pending", New: "\tfor height := from; height+1 < to; height++ {\n\t\tif h := s.pending"},
 		// benign
 		Variant{Prop: "C08", Name: "benign-range-guard-commuted", File: sd,
 			Old: "\tif from >= to {\n\t\treturn fmt.Errorf(\n\t\t\t\"header/store: invalid range [%d:%d) - from must be less than to\",", New: "\tif to <= from {\n\t\treturn fmt.Errorf(\n\t\t\t\"header/store: invalid range [%d:%d) - from must be less than to\","},
